@@ -146,7 +146,7 @@ fn c01_interp_u32() {
 /// Linear accuracy ("within one unit of the exact value") with the fraction taken from a table of
 /// (q, N) pairs — with q fully symbolic the 53-bit x 8-bit product against an independent copy of
 /// itself did not finish; containment in [lower, higher] IS proved for every q above.
-//@ prop=C01 tier=quick mem=3 timeout=1800 inst="Linear::interpolate at i16, fraction from a table" bounds="all lower <= higher with spread <= i16::MAX; (q,N) in {(0.3,3),(0.25,3),(0.9,4),(0.9999999999999999,2),(0.5,4),(1/3,4),(0.7,64)}"
+//@ prop=C01 tier=thorough mem=3 timeout=7200 inst="Linear::interpolate at i16, fraction from a table" bounds="all lower <= higher with spread <= i16::MAX; (q,N) in {(0.3,3),(0.25,3),(0.9,4),(0.9999999999999999,2),(0.5,4),(1/3,4),(0.7,64)}"
 #[kani::proof]
 fn c01_linear_accuracy_i16() {
     let l: i16 = kani::any();
@@ -185,7 +185,7 @@ fn c01_known_linear_i8_spread() {
 }
 
 /// N64 Midpoint / Nearest: bit-equal to the documented formulas evaluated in f64, every q.
-//@ prop=C01,C19:thorough tier=quick mem=3 timeout=1800 inst="Midpoint / Nearest ::interpolate at N64" bounds="all finite lower <= higher with |v| <= 2^500, every q, N 1..=64"
+//@ prop=C01,C19 tier=thorough mem=3 timeout=7200 inst="Midpoint / Nearest ::interpolate at N64" bounds="all finite lower <= higher with |v| <= 2^500, every q, N 1..=64"
 #[kani::proof]
 fn c01_interp_n64_midpoint_nearest() {
     let l: f64 = kani::any();
@@ -208,7 +208,7 @@ fn c01_interp_n64_midpoint_nearest() {
 /// N64 Linear: bit-equal to lower + fraction (higher - lower) with the fraction from a table
 /// (a symbolic 53 x 53-bit product against an independent copy of itself is an equivalence problem
 /// the SAT solver does not close: 30 min time-out); the ordering claims for every q are in c19.
-//@ prop=C01 tier=quick mem=3 timeout=2400 inst="Linear::interpolate at N64, fraction from a table" bounds="all finite lower <= higher with |v| <= 2^500; (q,N) in {(0.3,3),(0.25,3),(0.9,4),(1-ulp,2),(0.5,4),(1/3,4),(0.7,64),(1,5)}"
+//@ prop=C01 tier=thorough mem=3 timeout=7200 inst="Linear::interpolate at N64, fraction from a table" bounds="all finite lower <= higher with |v| <= 2^500; (q,N) in {(0.3,3),(0.25,3),(0.9,4),(1-ulp,2),(0.5,4),(1/3,4),(0.7,64),(1,5)}"
 #[kani::proof]
 fn c01_interp_n64_linear_table() {
     let l: f64 = kani::any();
@@ -394,19 +394,32 @@ macro_rules! c01_pipe {
     };
 }
 
-//@ prop=C01,C03:thorough,C20:thorough tier=quick mem=8 timeout=3000 flags=modelmap uses=cut inst="quantiles_axis_mut(Axis(0), [0.75, 0.25, 0.75], Lower) on ArrayViewMut2<i8> 3x2 F-order" bounds="all lane contents; 2 lanes of 3; 3 requests (repeat, non-monotone); unwind 10"
+// Quick-tier pipelines: 2 lanes of 2 elements (the 3-element lanes below take 9-13 min each and
+// live in the thorough tier). q table for N = 2: 0.5, 0.2 and 1-ulp all select (0, 1).
+//@ prop=C01,C03,C20:thorough tier=quick mem=6 timeout=1500 flags=modelmap uses=cut inst="quantiles_axis_mut(Axis(1), [0.5, 1.0], Lower) on ArrayViewMut2<i8> 2x2 F-order (contiguous, quantile axis = last axis, lanes NOT contiguous)" bounds="all lane contents; 2 lanes of 2; unwind 8"
+c01_pipe!(c01_pipe_lower_2x2_f_ax1, i8, id8, 0i8, Lower, 2, 2, 4, 2, 1, 1, [T2[2], T2[1]], 8);
+//@ prop=C01,C03:thorough,C20:thorough tier=quick mem=6 timeout=1500 flags=modelmap uses=cut inst="quantiles_axis_mut(Axis(1), [1-ulp, 0.0], Nearest) on ArrayViewMut2<i8> 2x2 C-order rows reversed (contiguous, lane stride +1)" bounds="all lane contents; unwind 8"
+c01_pipe!(c01_pipe_nearest_2x2_crowrev_ax1, i8, id8, 0i8, Nearest, 2, 2, 4, 2, 5, 1, [T2[3], T2[0]], 8);
+//@ prop=C01,C03:thorough,C20:thorough tier=quick mem=6 timeout=1500 flags=modelmap uses=cut inst="quantiles_axis_mut(Axis(0), [0.5, 0.2, 0.5], Midpoint) on ArrayViewMut2<i16> 2x2 C-order" bounds="i8-range payloads; 3 requests with a repeat; unwind 8"
+c01_pipe!(c01_pipe_midpoint_2x2_c_ax0, i16, w16, 0i16, Midpoint, 2, 2, 4, 3, 0, 0, [T2[2], T2[4], T2[2]], 8);
+//@ prop=C01:thorough,C03,C20:thorough tier=quick mem=6 timeout=1500 flags=modelmap uses=cut inst="quantiles_axis_mut(Axis(1), [0.2, 0.5], Higher) on ArrayViewMut2<i8> 2x2 stepped view of a 5x5 parent (guard cells)" bounds="all lane contents; unwind 8"
+c01_pipe!(c01_pipe_higher_2x2_step_ax1, i8, id8, 0i8, Higher, 2, 2, 4, 2, 2, 1, [T2[4], T2[2]], 8);
+//@ prop=C01,C03:thorough,C20:thorough tier=quick mem=6 timeout=1500 flags=modelmap uses=cut inst="quantiles_axis_mut(Axis(0), [0.2, 1.0], Linear) on ArrayViewMut2<i16> 2x2 both axes reversed" bounds="i8-range payloads; unwind 8"
+c01_pipe!(c01_pipe_linear_2x2_rev_ax0, i16, w16, 0i16, Linear, 2, 2, 4, 2, 3, 0, [T2[4], T2[1]], 8);
+
+//@ prop=C01,C03,C20 tier=thorough mem=8 timeout=3000 flags=modelmap uses=cut inst="quantiles_axis_mut(Axis(0), [0.75, 0.25, 0.75], Lower) on ArrayViewMut2<i8> 3x2 F-order" bounds="all lane contents; 2 lanes of 3; 3 requests (repeat, non-monotone); unwind 10"
 c01_pipe!(c01_pipe_lower_3x2_f_ax0, i8, id8, 0i8, Lower, 3, 2, 6, 3, 1, 0, [T3[4], T3[3], T3[4]], 10);
-//@ prop=C01,C03,C20:thorough tier=quick mem=8 timeout=3000 flags=modelmap uses=cut inst="quantiles_axis_mut(Axis(1), [0.5-ulp, 0.5+ulp], Higher) on ArrayViewMut2<i8> 2x3 stepped view of a 5x7 parent" bounds="all lane contents; 2 non-contiguous lanes of 3; unwind 10"
+//@ prop=C01,C03,C20 tier=thorough mem=8 timeout=3000 flags=modelmap uses=cut inst="quantiles_axis_mut(Axis(1), [0.5-ulp, 0.5+ulp], Higher) on ArrayViewMut2<i8> 2x3 stepped view of a 5x7 parent" bounds="all lane contents; 2 non-contiguous lanes of 3; unwind 10"
 c01_pipe!(c01_pipe_higher_2x3_step_ax1, i8, id8, 0i8, Higher, 2, 3, 6, 2, 2, 1, [T3[6], T3[7]], 10);
-//@ prop=C01,C03:thorough,C20:thorough tier=quick mem=8 timeout=3000 flags=modelmap uses=cut inst="quantiles_axis_mut(Axis(1), [0.25, 0.3, 1.0], Nearest) on ArrayViewMut2<i8> 2x3 both axes reversed" bounds="all lane contents; unwind 10"
+//@ prop=C01,C03,C20 tier=thorough mem=8 timeout=3000 flags=modelmap uses=cut inst="quantiles_axis_mut(Axis(1), [0.25, 0.3, 1.0], Nearest) on ArrayViewMut2<i8> 2x3 both axes reversed" bounds="all lane contents; unwind 10"
 c01_pipe!(c01_pipe_nearest_2x3_rev_ax1, i8, id8, 0i8, Nearest, 2, 3, 6, 3, 3, 1, [T3[3], T3[5], T3[1]], 10);
-//@ prop=C01,C03:thorough,C20:thorough tier=quick mem=8 timeout=3000 flags=modelmap uses=cut inst="quantiles_axis_mut(Axis(0), [0.25, 0.5], Midpoint) on ArrayViewMut2<i16> 3x2 C-order" bounds="i8-range payloads; unwind 10"
+//@ prop=C01,C03,C20 tier=thorough mem=8 timeout=3000 flags=modelmap uses=cut inst="quantiles_axis_mut(Axis(0), [0.25, 0.5], Midpoint) on ArrayViewMut2<i16> 3x2 C-order" bounds="i8-range payloads; unwind 10"
 c01_pipe!(c01_pipe_midpoint_3x2_c_ax0, i16, w16, 0i16, Midpoint, 3, 2, 6, 2, 0, 0, [T3[3], T3[2]], 10);
-//@ prop=C01,C03:thorough,C20:thorough tier=quick mem=8 timeout=3000 flags=modelmap uses=cut inst="quantiles_axis_mut(Axis(0), [0.3, 0.0], Linear) on ArrayViewMut2<i16> 3x2 F-order rows reversed" bounds="i8-range payloads; unwind 10"
+//@ prop=C01,C03,C20 tier=thorough mem=8 timeout=3000 flags=modelmap uses=cut inst="quantiles_axis_mut(Axis(0), [0.3, 0.0], Linear) on ArrayViewMut2<i16> 3x2 F-order rows reversed" bounds="i8-range payloads; unwind 10"
 c01_pipe!(c01_pipe_linear_3x2_frev_ax0, i16, w16, 0i16, Linear, 3, 2, 6, 2, 4, 0, [T3[5], T3[0]], 10);
-//@ prop=C01,C03:thorough,C20:thorough tier=quick mem=8 timeout=3000 flags=modelmap uses=cut inst="quantiles_axis_mut(Axis(1), [0.75, 0.0], Nearest) on ArrayViewMut2<i8> 2x3 C-order rows reversed (contiguous, lane stride +1)" bounds="all lane contents; unwind 10"
+//@ prop=C01,C03,C20 tier=thorough mem=8 timeout=3000 flags=modelmap uses=cut inst="quantiles_axis_mut(Axis(1), [0.75, 0.0], Nearest) on ArrayViewMut2<i8> 2x3 C-order rows reversed (contiguous, lane stride +1)" bounds="all lane contents; unwind 10"
 c01_pipe!(c01_pipe_nearest_2x3_crowrev_ax1, i8, id8, 0i8, Nearest, 2, 3, 6, 2, 5, 1, [T3[4], T3[0]], 10);
-//@ prop=C01,C03,C20:thorough tier=quick mem=8 timeout=3000 flags=modelmap uses=cut inst="quantiles_axis_mut(Axis(1), [0.5, 1.0], Lower) on ArrayViewMut2<i8> 2x3 F-order (contiguous, quantile axis = last axis, lanes NOT contiguous)" bounds="all lane contents; unwind 10"
+//@ prop=C01,C03,C20 tier=thorough mem=8 timeout=3000 flags=modelmap uses=cut inst="quantiles_axis_mut(Axis(1), [0.5, 1.0], Lower) on ArrayViewMut2<i8> 2x3 F-order (contiguous, quantile axis = last axis, lanes NOT contiguous)" bounds="all lane contents; unwind 10"
 c01_pipe!(c01_pipe_lower_2x3_f_ax1, i8, id8, 0i8, Lower, 2, 3, 6, 2, 1, 1, [T3[2], T3[1]], 10);
 //@ prop=C01 tier=quick mem=6 timeout=3000 flags=modelmap uses=cut inst="quantiles_axis_mut with an EMPTY request list on ArrayViewMut2<i8> 2x2" bounds="0 requests; unwind 10"
 c01_pipe!(c01_pipe_lower_2x2_noreq, i8, id8, 0i8, Lower, 2, 2, 4, 0, 0, 1, [], 10);
@@ -423,7 +436,7 @@ c01_pipe!(c01_pipe_lower_1x3_all_rows, i8, id8, 0i8, Lower, 1, 3, 3, 8, 0, 1, T3
 c01_pipe!(c01_pipe_higher_1x3_all_rows, i8, id8, 0i8, Higher, 1, 3, 3, 8, 3, 1, T3, 12);
 
 /// 1-D entry points: quantile_mut / quantiles_mut, and the single-q axis form (axis removed).
-//@ prop=C01,C18:thorough tier=quick mem=6 timeout=3000 flags=modelmap uses=cut inst="quantile_mut / quantiles_mut / quantile_axis_mut on Array1<i16> len 3 and a 3x1 column; Midpoint, q = 0.75" bounds="i8-range payloads; unwind 10"
+//@ prop=C01,C18 tier=thorough mem=6 timeout=3000 flags=modelmap uses=cut inst="quantile_mut / quantiles_mut / quantile_axis_mut on Array1<i16> len 3 and a 3x1 column; Midpoint, q = 0.75" bounds="i8-range payloads; unwind 10"
 #[kani::proof]
 #[kani::unwind(10)]
 fn c01_entry_points_1d() {
